@@ -3,7 +3,9 @@
    base/bsupport/logrewrites.go (NewRewritersFromConfig, VerifyRewriterConfigs) and the three rewriters
    rewrite/rinline, rewrite/runescape (after the fix: it no longer sets record.Unescaped), rewrite/rcopy.
 
-   The serializer owns one fixed buffer of 2*defs.InputLogMaxRecordBytes bytes.  encodeRecord reserves the
+   The serializer owns one preallocated buffer of 2*defs.InputLogMaxRecordBytes bytes.  Since fix 413c995
+   SerializeRecord first computes maxEncodedLength(record), an upper bound of the encoded length, and encodes into a
+   one-off buffer of maxLength+1 bytes when maxLength >= len(buffer).  encodeRecord reserves the
    root map header, writes the visible fields (pre-serialized key, then the value; a rewritten value gets a
    header reserved for its MAXIMUM length which is patched afterwards), patches the map header, then writes
    the nested "environment" map.  position == len(buffer) at the end yields the empty stream.
@@ -279,12 +281,68 @@ Definition encode_record_on (ser : serializer) (rec : record) (buffer : bytes) :
   '(buf, pos) <-- encode_env (s_env_locs ser) (s_env_keys ser) fields buf pos ;;
   if (pos =? length buf)%nat then Ok (buf, O) else Ok (buf, pos).
 
-(* SerializeRecord on the serializer's buffer as the previous records left it: packer.buffer[:length] *)
-Definition serialize_record_from (ser : serializer) (rec : record) (buffer : bytes) : outcome bytes :=
+(* encodeRecord(record, buffer) followed by buffer[:length], on a GIVEN buffer (the whole of SerializeRecord before
+   fix 413c995; since then the buffer is chosen first, see below) *)
+Definition serialize_on (ser : serializer) (rec : record) (buffer : bytes) : outcome bytes :=
   '(buf, e) <-- encode_record_on ser rec buffer ;;
   src_slice buf 0 e.
 
-(* ... and on a fresh, zeroed buffer (what the correspondence run evaluates; the theorems hold for any contents) *)
+(* ---------- maxEncodedLength (fix 413c995) ---------- *)
+
+(* the loop over the visible fields: len(serializedFieldKeys[i]) + 5 + (MaxFieldLength(value, record) | len(value)) *)
+Fixpoint max_fields_len (masks : list bool) (keys : list bytes) (rws : list (option rewriter))
+         (fields : list bytes) (rec : record) (acc : nat) : outcome nat :=
+  match fields with
+  | [] => Ok acc
+  | value :: fields' =>
+    match masks, keys, rws with
+    | m :: masks', key :: keys', rw :: rws' =>
+      if m || is_nil value then max_fields_len masks' keys' rws' fields' rec acc
+      else
+        n <-- match rw with
+              | Some head => max_field_length head value rec
+              | None => Ok (length value)
+              end ;;
+        max_fields_len masks' keys' rws' fields' rec (acc + length key + 5 + n)%nat
+    | _, _, _ => Panic site_index
+    end
+  end.
+
+(* the loop over the environment fields: len(serializedEnvFieldKeys[i]) + 5 + len(loc.Get(fields)) *)
+Fixpoint max_env_len (locs : list nat) (keys : list bytes) (fields : list bytes) (acc : nat) : outcome nat :=
+  match locs with
+  | [] => Ok acc
+  | loc :: locs' =>
+    match keys with
+    | key :: keys' =>
+      value <-- get_field fields loc ;;
+      max_env_len locs' keys' fields (acc + length key + 5 + length value)%nat
+    | [] => Panic site_index
+    end
+  end.
+
+(* root-array header 1, timestamp 10, root-map header 3, "environment" key 12, environment-map header 3 *)
+Definition fixed_overhead : nat := (1 + 10 + 3 + 12 + 3)%nat.
+
+(* maxEncodedLength(record): Go int is 64 bits wide, no wrap-around for sizes that fit a machine *)
+Definition max_encoded_length (ser : serializer) (rec : record) : outcome nat :=
+  let nfields := length (s_masks ser) in
+  fields <-- (if (nfields <=? length (r_fields rec))%nat       (* record.Fields[0:len(fieldMasks)] *)
+              then Ok (firstn nfields (r_fields rec)) else Panic site_slice) ;;
+  n <-- max_fields_len (s_masks ser) (s_keys ser) (s_rewriters ser) fields rec fixed_overhead ;;
+  max_env_len (s_env_locs ser) (s_env_keys ser) fields n.
+
+(* buffer := packer.buffer; if maxLength >= len(buffer) { buffer = make([]byte, maxLength+1) } *)
+Definition choose_buffer (buffer : bytes) (maxlen : nat) : bytes :=
+  if (length buffer <=? maxlen)%nat then repeat 0 (maxlen + 1) else buffer.
+
+(* SerializeRecord, the preallocated buffer being as the previous records left it *)
+Definition serialize_record_from (ser : serializer) (rec : record) (buffer : bytes) : outcome bytes :=
+  maxlen <-- max_encoded_length ser rec ;;
+  serialize_on ser rec (choose_buffer buffer maxlen).
+
+(* ... and with a fresh, zeroed preallocated buffer (what the correspondence run evaluates; the theorems hold for
+   any contents) *)
 Definition serialize_record (ser : serializer) (rec : record) : outcome bytes :=
   serialize_record_from ser rec (repeat 0 (s_buflen ser)).
 
